@@ -18,7 +18,7 @@ type triIn struct {
 }
 
 func zooValue(r *Rand, parser string) TV {
-	ints := []int64{0, 1, -1, 3, -3, 7, 127, 255, 1 << 31, -(1 << 31), 1<<53 - 1}
+	ints := []int64{0, 1, -1, 3, -3, 7, 127, 255, 1 << 31, -(1 << 31), 1<<53 - 1, 7 + 1<<32, 3 + 1<<32, 4294967295, 1 << 32}
 	words := []string{"abc", "7", "-3", "3.7", "日本", "", "a b", "007"}
 	z := pick(r, ints)
 	switch parser {
